@@ -11,8 +11,9 @@ together with an antichain of the same size, certifies the minimum (T6, width_ce
 is not ignored and, at coverage fraction 1, containing every subset constraint. For digraphs with cycles an integral feasible
 flow of the instance stDiGraph.get_width builds on the expanded condensation lifts to that many source-to-sink walks
 covering every edge that is not ignored (condensation_flow_to_walkcover), so with an antichain of pairwise unreachable
-edges of the same size the cost is the minimum walk cover (digraph_width_is_min_walk_cover); the three extra hypotheses
-(edges join nodes, no isolated node, no duplicate in edges_to_ignore) are each necessary (cwc_needs_*).
+edges of the same size the cost is the minimum walk cover (digraph_width_is_min_walk_cover); the two extra hypotheses
+(edges join nodes, no isolated node) are each necessary (cwc_needs_*); edges_to_ignore may repeat entries (each distinct
+edge counts once since fix afcb013; regression on the witness of that defect: cwc_duplicate_ignore_counts_once).
 Tie: K2 LP dumps of kPathCover / kPathCoverCycles; K3 search traces of MinPathCover / MinPathCoverCycles (props.c13
 machinery); K1 the demands get_width puts on the min-flow instance (DAG and expanded condensation) against the Lean
 model; K5 brute-force minimum covers (written against the property text, no flows, no condensation) against
@@ -34,7 +35,7 @@ THEOREMS = ["FP.Props.C09.kcover_sound", "FP.Props.C09.kcover_complete", "FP.Pro
             "FP.Props.C09.walkcover_sound", "FP.Props.C09.walkcover_hascover",
             "FP.Props.C09.walkcover_optimal_has_cover", "FP.Props.C09.walkcover_sound_literal_false",
             "FP.Props.C09.condensation_flow_to_walkcover", "FP.Props.C09.digraph_width_is_min_walk_cover",
-            "FP.Props.C09.cyc1_cover", "FP.cwc_needs_closed", "FP.cwc_needs_no_isolated", "FP.cwc_needs_nodup",
+            "FP.Props.C09.cyc1_cover", "FP.cwc_needs_closed", "FP.cwc_needs_no_isolated", "FP.cwc_duplicate_ignore_counts_once",
             "FP.Props.C13.search_sound", "FP.Props.C13.search_complete", "FP.Props.C01.pathcore_sound"]
 IMPORTS = ["FP.Props.C09", "FP.Props.C13", "FP.Props.C01", "FP.Proofs.CondWalkCoverNeeds"]
 K2_ADAPTERS = ["kcover", "kcoverc"]
@@ -43,15 +44,16 @@ RULE = ("K5.dag: random DAGs with at most 8 edges, random ignore sets leaving at
         "nested cycles, parallel SCC exits/entries, extra sources/sinks, additional starts/ends) with at most 7 edges in which "
         "every edge lies on a start-to-end walk, ignore sets (inside SCCs, parallel inter-SCC edges, source edges), subset "
         "constraints at coverage 1. A case = (class or method, instance); non-trivial iff the brute-force minimum is >= 2 or an "
-        "ignore set / constraint / additional start or end is present. K1: the same instances plus all-ignored and "
-        "duplicate-ignore lists. K2: generated encoder configurations (non-trivial: LP with more than 8 lines). K3: fault "
+        "ignore set / constraint / additional start or end is present; K5.cyc.width_dup_ignore: the same instance with "
+        "some entries of edges_to_ignore repeated (a repeated inter-SCC, inside-SCC or synthetic edge), always non-trivial. "
+        "K1: the same instances (with and without repeated entries) plus all-ignored and duplicate-ignore lists. K2: generated encoder configurations (non-trivial: LP with more than 8 lines). K3: fault "
         "plans of props.c13 on MinPathCover / MinPathCoverCycles.")
 MODEL_SCOPE = ("modelled and proven: kPathCover LP (cover_type='edge', subpath constraints at coverage fraction 1 or none, no "
                "length coverage, safety optimisations adding nothing), MinPathCover search loop, antichain lower bound, flow "
                "decomposition on DAGs, soundness of the kPathCoverCycles LP (every solution decodes to k covering source-to-sink "
                "walks; subset constraints at coverage fraction 1; safety optimisations off, C05 shows they change nothing), the "
                "min-flow instance of stDiGraph.get_width on the expanded condensation (K1) with the flow-to-walk-cover direction "
-               "(given the SCC labelling, every edge on a source-to-sink walk, a duplicate-free edges_to_ignore); modelled (K1/K2) "
+               "(given the SCC labelling and every edge on a source-to-sink walk; edges_to_ignore may repeat entries); modelled (K1/K2) "
                "without proof: completeness of the kPathCoverCycles LP (walks -> assignment within the repetition caps); not "
                "proven: min-flow / max-antichain strong duality; not modelled: network simplex, the residual search extracting "
                "the antichain (their "
@@ -62,8 +64,6 @@ TRUSTED = ["HiGHS reports kOptimal only with an assignment satisfying the LP and
            "Lean model of stDiGraph.get_width)"]
 ASSUMPTIONS = ["coverage fraction 1 for subpath/subset constraints in the end-to-end oracles (fractions < 1 are covered by K2 only)",
                "at least one edge (node) is not ignored",
-               "edges_to_ignore passed to stDiGraph.get_width has no duplicate entries (edge_multiplicity is decremented once per "
-               "entry: FP.cwc_needs_nodup shows the width can come out too small otherwise; K1 still compares such lists)",
                "every edge of the digraph lies on a walk from the global source to the global sink (fails for cycles without an "
                "entry from a source: stDiGraph attaches the source only to nodes of in-degree 0)"]
 
@@ -494,6 +494,25 @@ def check_cyc_width(ctx, inst, mn0, suite):
                       site="stDiGraph.get_width")
     rec = cap.calls[-1] if cap.calls else None
     k1_cyc_demands(ctx, inst, st, to_ignore, rec)
+    # the same list with some entries repeated: an edge listed twice is still one edge to ignore (fix afcb013), so the
+    # width must still be the brute-force minimum walk cover; the instance built goes to the K1 tie as well
+    dups = [e for e in to_ignore if ctx.rng.random() < 0.5] or to_ignore[:1]
+    to_ignore_dup = to_ignore + dups
+    ctx.rng.shuffle(to_ignore_dup)
+    ctx.rep.cov["oracle_evaluations"] += 1
+    with Capture(fp) as capd:
+        okd, wd = safe(ctx, "stDiGraph.get_width(duplicate entries)", inst, "stDiGraph.get_width.duplicates",
+                       lambda: st.get_width(edges_to_ignore=to_ignore_dup))
+    if okd:
+        inter_dup = any(not st.is_scc_edge(*e) for e in dups)
+        ctx.rep.count(suite + ".width_dup_ignore", dict(inst, ignore_dup=[list(e) for e in to_ignore_dup]), nontrivial=True,
+                      hist=["stDiGraph.get_width", "dup_inter_scc" if inter_dup else "dup_inside_scc",
+                            "dup_user_edge" if any(e in ign for e in dups) else "dup_synthetic_only"])
+        if wd != mn0:
+            viol(ctx, f"stDiGraph.get_width with repeated entries in edges_to_ignore = {wd}, minimum walk cover is {mn0} "
+                      f"(without repetitions: {w})", dict(inst, ignore_dup=[list(e) for e in to_ignore_dup]),
+                 site="stDiGraph.get_width.duplicates")
+        k1_cyc_demands(ctx, inst, st, to_ignore_dup, capd.calls[-1] if capd.calls else None)
     if rec is None:
         return
     # certificate on the expanded condensation, lifted to edges of the digraph
@@ -637,7 +656,8 @@ def k1_big(ctx, rng):
 
 
 def k1_extra(ctx, rng):
-    """K1 only: ignore lists the property excludes or that are unusual (everything ignored, duplicate entries)"""
+    """K1 only: ignore lists the property excludes or that are unusual (everything ignored; duplicate entries on instances
+    without a brute-force minimum — K5 repeats entries in check_cyc_width)"""
     fp = ctx.fp
     inst = dag_instance(rng)
     st = fp.stDAG(build_graph(inst), additional_starts=list(inst["starts"]), additional_ends=list(inst["ends"]))
